@@ -23,10 +23,28 @@ def snapshot(t):
     )
 
 
-def run_history(h):
+def mid_queries(t, qboxes, hist):
+    """queries interleaved with the insertions (a query must not change later answers)"""
+    rec = dict(q=[], root=None)
+    for q in qboxes:
+        flag, ov = t.overlaps_aabb(box_arr(q))
+        ov = [int(i) for i in ov]
+        rec["q"].append(dict(box=q, ov=ov, flag=bool(flag),
+                             boxes=[np.asarray(t.aabbs[i], dtype=float).reshape(-1).tolist() for i in ov],
+                             ext=[None if t.external_data_list[i] is None else int(t.external_data_list[i]) for i in ov]))
+    if len(t.aabbs) > 0:
+        rec["root"] = np.asarray(t.get_root_aabb(), dtype=float).reshape(-1).tolist()
+        flag, u1, u2, pairs = t.overlaps_aabb_tree(t)
+        rec["self_pairs"] = len(pairs)
+    hist.append(rec)
+
+
+def run_history(h, mid=None):
     t = AT.AabbTree()
     snaps = []
     orders = []
+    if mid is not None:
+        mid_queries(t, [[-1e6, 1e6, -1e6, 1e6, -1e6, 1e6]], mid)
     for b in h:
         boxes = [box_arr(x) for x in b["boxes"]]
         data = b["data"]
@@ -56,15 +74,20 @@ def run_history(h):
         if n > 0:
             snaps.append(snapshot(t))
             orders.append(order)
+        if mid is not None:
+            mid_queries(t, [[-1e6, 1e6, -1e6, 1e6, -1e6, 1e6]] + [list(x) for x in b["boxes"][:3]], mid)
     return t, snaps, orders
 
 
 def run_case(c):
     out = {}
     try:
-        t1, s1, o1 = run_history(c["h1"])
+        mid = [] if c.get("interleave") else None
+        t1, s1, o1 = run_history(c["h1"], mid)
         t2, s2, o2 = run_history(c["h2"])
         out.update(s1=s1, s2=s2, o1=o1, o2=o2)
+        if mid is not None:
+            out["mid"] = mid
         out["boxes1"] = np.asarray(t1.aabbs, dtype=float).reshape(-1, 3, 2).reshape(-1).tolist()
         out["boxes2"] = np.asarray(t2.aabbs, dtype=float).reshape(-1, 3, 2).reshape(-1).tolist()
         qs = []
